@@ -124,6 +124,69 @@ def probe_additions(net, rng):
     return None
 
 
+def exotic_id_probe():
+    """Explicit ids of kinds outside the model's label universe (whole-number floats, numpy scalars,
+    bools): checked against the implementation only.  An id that equals an integer as a dict key must
+    move the counter past that integer, whatever its Python type."""
+    import numpy as np, pandas as pd, xgi, tempfile, os
+    failures = []
+    def fail(name, d):
+        failures.append((f"{PROP}:exotic-id:{name}:{d.split(' ')[0]}", {"what": f"{name}: {d}", "provenance": "exotic-id:" + name}))
+    ids = [("float 2.0", 2.0), ("float 0.0", 0.0), ("numpy.int64(3)", np.int64(3)), ("numpy.float64(1.0)", np.float64(1.0)),
+           ("True", True)]
+    for cls_name in ("Hypergraph", "DiHypergraph", "SimplicialComplex"):
+        for name, idx in ids:
+            for how in ("single", "bulk"):
+                net = getattr(xgi, cls_name)()
+                try:
+                    if cls_name == "DiHypergraph":
+                        if how == "single":
+                            net.add_edge(([901], [902]), idx=idx)
+                        else:
+                            net.add_edges_from([(([901], [902]), idx)])
+                    elif cls_name == "SimplicialComplex":
+                        if how == "single":
+                            net.add_simplex([901, 902], idx=idx)
+                        else:
+                            net.add_simplices_from([([901, 902], idx)])
+                    else:
+                        if how == "single":
+                            net.add_edge([901, 902], idx=idx)
+                        else:
+                            net.add_edges_from([([901, 902], idx)])
+                except Exception:  # noqa: BLE001 - an id kind the library refuses is fine
+                    continue
+                if len(net.edges) == 0:
+                    continue      # e.g. a falsy id is ignored by add_simplex
+                try:
+                    d = probe_additions(net, random.Random(3))
+                except Exception as e:  # noqa: BLE001
+                    d = f"addition raised {type(e).__name__}: {e}"
+                if d:
+                    fail(f"{cls_name} {how} explicit id {name}", d)
+    # converters / readers that produce such ids
+    try:
+        df = pd.DataFrame({"n": [1, 2, 3, 4], "e": [0.0, 0.0, 1.0, 1.0]})
+        net = xgi.from_bipartite_pandas_dataframe(df, node_column="n", edge_column="e")
+        d = probe_additions(net, random.Random(3))
+        if d:
+            fail("from_bipartite_pandas_dataframe(float edge column)", d)
+    except Exception:  # noqa: BLE001
+        pass
+    try:
+        fd, p = tempfile.mkstemp(suffix=".txt", prefix="xgiverif_"); os.close(fd)
+        with open(p, "w") as f:
+            f.write("1 0\n2 0\n2 1\n3 1\n")
+        net = xgi.read_bipartite_edgelist(p, nodetype=int, edgetype=float)
+        os.unlink(p)
+        d = probe_additions(net, random.Random(3))
+        if d:
+            fail("read_bipartite_edgelist(edgetype=float)", d)
+    except Exception:  # noqa: BLE001
+        pass
+    return failures
+
+
 def provenance_sweep(v, rounds):
     P = PV.provenances()
     rng = random.Random(C.seed() * 7919 + 17)
@@ -210,6 +273,7 @@ def run(v):
                             "implementation_last": HC.jsonable(r["obs"][-1]), "model_trace": mtrace})
     pf, skipped, done, nprov = provenance_sweep(v, 12 if C.tier() == "thorough" else 3)
     failures += pf
+    failures += exotic_id_probe()
     st = HC.stats(recs)
     v.coverage.update({
         "evaluations": len(recs) + extra_cases + done,
